@@ -137,6 +137,17 @@ def insertion(ctx, P):
             ctx.violation(ob, "R1.tail-insertion", rules.qual(ci, fn), unparse(node), "order-changing-op",
                           "`%s` on the customer lists breaks arrival order within a priority class (FIFO/LIFO rely on it)" % how, loc(node))
     ctx.floor("operations on individuals", n, 4)
+    # Node.all_individuals hands out the live list individuals[0] when there is a single priority class: re-ordering the
+    # value it returns (directly or through a local alias) re-orders the queue itself
+    node_family = set(P.subclasses("Node"))
+    for ci, fn, node, recv, how in rules.attr_writes(P, "all_individuals"):
+        if ci is None or ci.name not in node_family:
+            continue
+        ob.seen("%s:all_individuals.%s" % (rules.qual(ci, fn), how))
+        if how in ("insert", "sort", "reverse", "extend", "assign[]", "aug[]", "aug"):
+            ctx.violation(ob, "R1.tail-insertion", rules.qual(ci, fn), unparse(node), "order-changing-op-on-view",
+                          "`%s` on the value of all_individuals: with one priority class that value is individuals[0] itself, so the waiting "
+                          "line is re-ordered (FIFO/LIFO rely on arrival order)" % how, loc(node))
 
 
 def start_sites(ctx, P, views, iters):
